@@ -39,7 +39,17 @@ var c02Bases = []struct {
 // c02Knob derives a spec from a base without removing parameters the peer requires.
 type c02Knob struct {
 	Name  string
-	Apply func(s *quic.QUICSpec)
+	Apply func(s *quic.QUICSpec, b string)
+}
+
+// c02CHLen is the measured ClientHello size of each base fingerprint (bytes).
+var c02CHLen = map[string]int{"chrome115": 284, "chrome115v6": 298, "chrome146": 1738, "chrome146v6": 1700, "firefox116a": 512, "firefox116b": 512, "firefox116c": 512}
+
+// c02PadTo grows the ClientHello of base b to roughly target bytes (never shrinks it).
+func c02PadTo(s *quic.QUICSpec, b string, target int) {
+	if n := target - c02CHLen[b] - 4; n > 0 {
+		c02PadCH(s, n)
+	}
 }
 
 func c02PadCH(s *quic.QUICSpec, n int) {
@@ -49,78 +59,81 @@ func c02PadCH(s *quic.QUICSpec, n int) {
 }
 
 var c02Knobs = []c02Knob{
-	{"base", func(s *quic.QUICSpec) {}},
-	{"scid0", func(s *quic.QUICSpec) { s.InitialPacketSpec.SrcConnIDLength = 0 }},
-	{"scid1", func(s *quic.QUICSpec) { s.InitialPacketSpec.SrcConnIDLength = 1 }},
-	{"scid8", func(s *quic.QUICSpec) { s.InitialPacketSpec.SrcConnIDLength = 8 }},
-	{"scid20", func(s *quic.QUICSpec) { s.InitialPacketSpec.SrcConnIDLength = 20 }},
-	{"dcid0", func(s *quic.QUICSpec) { s.InitialPacketSpec.DestConnIDLength = 0 }},
-	{"dcid8", func(s *quic.QUICSpec) { s.InitialPacketSpec.DestConnIDLength = 8 }},
-	{"dcid20", func(s *quic.QUICSpec) { s.InitialPacketSpec.DestConnIDLength = 20 }},
-	{"pn0", func(s *quic.QUICSpec) { s.InitialPacketSpec.InitPacketNumber = 0 }},
-	{"pn1", func(s *quic.QUICSpec) { s.InitialPacketSpec.InitPacketNumber = 1 }},
-	{"pn2", func(s *quic.QUICSpec) { s.InitialPacketSpec.InitPacketNumber = 2 }},
-	{"pn200", func(s *quic.QUICSpec) { s.InitialPacketSpec.InitPacketNumber = 200 }},
-	{"pnlen-nil", func(s *quic.QUICSpec) {
+	{"base", func(s *quic.QUICSpec, b string) {}},
+	{"scid0", func(s *quic.QUICSpec, b string) { s.InitialPacketSpec.SrcConnIDLength = 0 }},
+	// (1-byte source connection IDs collide with probability 1/256 per issued ID by
+	// construction; that length is exercised on the wire by C10 only)
+	{"scid4", func(s *quic.QUICSpec, b string) { s.InitialPacketSpec.SrcConnIDLength = 4 }},
+	{"scid8", func(s *quic.QUICSpec, b string) { s.InitialPacketSpec.SrcConnIDLength = 8 }},
+	{"scid20", func(s *quic.QUICSpec, b string) { s.InitialPacketSpec.SrcConnIDLength = 20 }},
+	{"dcid0", func(s *quic.QUICSpec, b string) { s.InitialPacketSpec.DestConnIDLength = 0 }},
+	{"dcid8", func(s *quic.QUICSpec, b string) { s.InitialPacketSpec.DestConnIDLength = 8 }},
+	{"dcid20", func(s *quic.QUICSpec, b string) { s.InitialPacketSpec.DestConnIDLength = 20 }},
+	{"pn0", func(s *quic.QUICSpec, b string) { s.InitialPacketSpec.InitPacketNumber = 0 }},
+	{"pn1", func(s *quic.QUICSpec, b string) { s.InitialPacketSpec.InitPacketNumber = 1 }},
+	{"pn2", func(s *quic.QUICSpec, b string) { s.InitialPacketSpec.InitPacketNumber = 2 }},
+	{"pn200", func(s *quic.QUICSpec, b string) { s.InitialPacketSpec.InitPacketNumber = 200 }},
+	{"pnlen-nil", func(s *quic.QUICSpec, b string) {
 		s.InitialPacketSpec.InitPacketNumberLengths = nil
 		s.InitialPacketSpec.InitPacketNumberLength = 0
 	}},
-	{"pnlen-1", func(s *quic.QUICSpec) { s.InitialPacketSpec.InitPacketNumberLengths = []quic.PacketNumberLen{1} }},
-	{"pnlen-1-2", func(s *quic.QUICSpec) { s.InitialPacketSpec.InitPacketNumberLengths = []quic.PacketNumberLen{1, 2} }},
-	{"pnlen-2-4", func(s *quic.QUICSpec) { s.InitialPacketSpec.InitPacketNumberLengths = []quic.PacketNumberLen{2, 4} }},
-	{"token70", func(s *quic.QUICSpec) {
+	{"pnlen-1", func(s *quic.QUICSpec, b string) { s.InitialPacketSpec.InitPacketNumberLengths = []quic.PacketNumberLen{1} }},
+	{"pnlen-1-2", func(s *quic.QUICSpec, b string) { s.InitialPacketSpec.InitPacketNumberLengths = []quic.PacketNumberLen{1, 2} }},
+	{"pnlen-2-4", func(s *quic.QUICSpec, b string) { s.InitialPacketSpec.InitPacketNumberLengths = []quic.PacketNumberLen{2, 4} }},
+	{"token70", func(s *quic.QUICSpec, b string) {
 		s.InitialPacketSpec.ClientTokenLength = 70
 		s.InitialPacketSpec.ClientTokenPrefix = []byte{0}
 	}},
-	{"token-prefix-only", func(s *quic.QUICSpec) { s.InitialPacketSpec.ClientTokenPrefix = []byte{0, 1, 2, 3} }},
-	{"fb-nil", func(s *quic.QUICSpec) { s.InitialPacketSpec.FrameBuilder = nil }},
-	{"fb-empty-frames", func(s *quic.QUICSpec) { s.InitialPacketSpec.FrameBuilder = quic.QUICFrames{} }},
-	{"fb-tiled", func(s *quic.QUICSpec) {
+	{"token-prefix-only", func(s *quic.QUICSpec, b string) { s.InitialPacketSpec.ClientTokenPrefix = []byte{0, 1, 2, 3} }},
+	{"fb-nil", func(s *quic.QUICSpec, b string) { s.InitialPacketSpec.FrameBuilder = nil }},
+	{"fb-empty-frames", func(s *quic.QUICSpec, b string) { s.InitialPacketSpec.FrameBuilder = quic.QUICFrames{} }},
+	{"fb-tiled", func(s *quic.QUICSpec, b string) {
 		s.InitialPacketSpec.FrameBuilder = quic.QUICFrames{
 			quic.QUICFramePing{}, quic.QUICFrameCrypto{Offset: 100, Length: 0}, quic.QUICFramePadding{Length: 3},
 			quic.QUICFrameCrypto{Offset: 0, Length: 40}, quic.QUICFrameCrypto{Offset: 40, Length: 60}}
 	}},
-	{"fb-random-a", func(s *quic.QUICSpec) {
+	{"fb-random-a", func(s *quic.QUICSpec, b string) {
 		s.InitialPacketSpec.FrameBuilder = &quic.QUICRandomFrames{MinPING: 0, MaxPING: 3, MinCRYPTO: 1, MaxCRYPTO: 4, MinPADDING: 1, MaxPADDING: 3, Length: 1200}
 	}},
-	{"fb-random-b", func(s *quic.QUICSpec) {
+	{"fb-random-b", func(s *quic.QUICSpec, b string) {
 		s.InitialPacketSpec.FrameBuilder = &quic.QUICRandomFrames{MinPING: 2, MaxPING: 2, MinCRYPTO: 5, MaxCRYPTO: 5, MinPADDING: 0, MaxPADDING: 0, Length: 0}
 	}},
-	{"fb-random-c", func(s *quic.QUICSpec) {
+	{"fb-random-c", func(s *quic.QUICSpec, b string) {
 		s.InitialPacketSpec.FrameBuilder = &quic.QUICRandomFrames{MinCRYPTO: 1, MaxCRYPTO: 2, MinPADDING: 1, MaxPADDING: 2, Length: 600}
 	}},
-	{"fb-multidatagram", func(s *quic.QUICSpec) {
+	{"fb-multidatagram", func(s *quic.QUICSpec, b string) {
 		s.InitialPacketSpec.FrameBuilder = &quic.QUICMultiDatagramFrames{PerDatagram: []quic.QUICRandomFrames{
 			{MinCRYPTO: 2, MaxCRYPTO: 4, MinPING: 0, MaxPING: 2, MinPADDING: 1, MaxPADDING: 3, Length: 1100},
 			{MinCRYPTO: 1, MaxCRYPTO: 2}}}
 	}},
-	{"fb-flight-tailfirst", func(s *quic.QUICSpec) {
-		c02PadCH(s, 1800)
+	{"fb-flight-tailfirst", func(s *quic.QUICSpec, b string) {
+		c02PadTo(s, b, 2000) // ClientHello of 1700..2000 bytes: three datagrams, tail first
 		s.InitialPacketSpec.FrameBuilder = &quic.QUICFlightFrames{Datagrams: []quic.QUICFrames{
 			{quic.QUICFrameCrypto{Offset: -365}, quic.QUICFrameCrypto{Offset: 0, Length: 62}},
 			{quic.QUICFrameCrypto{Offset: 62, Length: 1100}},
 			{quic.QUICFrameCrypto{Offset: 1162, Length: -365}}}}
 	}},
-	{"fb-randomflight", func(s *quic.QUICSpec) {
-		c02PadCH(s, 1200)
+	{"fb-randomflight", func(s *quic.QUICSpec, b string) {
+		c02PadTo(s, b, 1500)
 		s.InitialPacketSpec.FrameBuilder = &quic.QUICRandomFlightFrames{PerDatagram: []quic.QUICRandomFlightDatagram{
 			{CryptoRanges: []quic.QUICCryptoRange{{Offset: -300}, {Offset: 0, Length: 50}}, Frames: quic.QUICRandomFrames{MinCRYPTO: 1, MaxCRYPTO: 3, MinPING: 0, MaxPING: 2}},
-			{CryptoRanges: []quic.QUICCryptoRange{{Offset: 50, Length: -300}}, Frames: quic.QUICRandomFrames{MinCRYPTO: 1, MaxCRYPTO: 2}}}}
+			{CryptoRanges: []quic.QUICCryptoRange{{Offset: 50, Length: 700}}, Frames: quic.QUICRandomFrames{MinCRYPTO: 1, MaxCRYPTO: 2}},
+			{CryptoRanges: []quic.QUICCryptoRange{{Offset: 750, Length: -300}}, Frames: quic.QUICRandomFrames{MinCRYPTO: 2, MaxCRYPTO: 4, MinPING: 1, MaxPING: 2}}}}
 	}},
-	{"plan-999-1200", func(s *quic.QUICSpec) {
+	{"plan-999-1200", func(s *quic.QUICSpec, b string) {
 		c02PadCH(s, 900)
 		s.InitialPacketSpec.InitialPackets = []quic.InitialPacketPlan{{CryptoLength: 999, PacketSize: 1200}, {PacketSize: 1200}}
 	}},
-	{"plan-1250", func(s *quic.QUICSpec) { s.InitialPacketSpec.InitialPackets = []quic.InitialPacketPlan{{PacketSize: 1250}} }},
-	{"udpmin0", func(s *quic.QUICSpec) { s.UDPDatagramMinSize = 0 }},
-	{"udpmin1200", func(s *quic.QUICSpec) { s.UDPDatagramMinSize = 1200 }},
-	{"udpmin1357", func(s *quic.QUICSpec) { s.UDPDatagramMinSize = 1357 }},
-	{"randomize-tp", func(s *quic.QUICSpec) { s.RandomizeTransportParameters = true }},
-	{"suppress-grease", func(s *quic.QUICSpec) { s.SuppressTransportParameters = []uint64{quic.QTPGrease} }},
-	{"suppress-optional", func(s *quic.QUICSpec) { s.SuppressTransportParameters = []uint64{0x4752, 0x3128, 0x20} }},
-	{"ch-2datagrams", func(s *quic.QUICSpec) { c02PadCH(s, 1300) }},
-	{"ch-3datagrams", func(s *quic.QUICSpec) { c02PadCH(s, 2500) }},
-	{"ch-4datagrams", func(s *quic.QUICSpec) { c02PadCH(s, 3600) }},
+	{"plan-1250", func(s *quic.QUICSpec, b string) { s.InitialPacketSpec.InitialPackets = []quic.InitialPacketPlan{{PacketSize: 1250}} }},
+	{"udpmin0", func(s *quic.QUICSpec, b string) { s.UDPDatagramMinSize = 0 }},
+	{"udpmin1200", func(s *quic.QUICSpec, b string) { s.UDPDatagramMinSize = 1200 }},
+	{"udpmin1357", func(s *quic.QUICSpec, b string) { s.UDPDatagramMinSize = 1357 }},
+	{"randomize-tp", func(s *quic.QUICSpec, b string) { s.RandomizeTransportParameters = true }},
+	{"suppress-grease", func(s *quic.QUICSpec, b string) { s.SuppressTransportParameters = []uint64{quic.QTPGrease} }},
+	{"suppress-optional", func(s *quic.QUICSpec, b string) { s.SuppressTransportParameters = []uint64{0x4752, 0x3128, 0x20} }},
+	{"ch-2datagrams", func(s *quic.QUICSpec, b string) { c02PadCH(s, 1300) }},
+	{"ch-3datagrams", func(s *quic.QUICSpec, b string) { c02PadCH(s, 2500) }},
+	{"ch-4datagrams", func(s *quic.QUICSpec, b string) { c02PadCH(s, 3600) }},
 }
 
 var c02Servers = []struct {
@@ -196,7 +209,7 @@ func c02Run(t *testing.T, cfg c02Config) c02Outcome {
 						panic(err)
 					}
 					for _, k := range cfg.Knobs {
-						c02Knobs[k].Apply(&s)
+						c02Knobs[k].Apply(&s, base.Name)
 					}
 					spec = &s
 				}
@@ -242,12 +255,19 @@ func c02Run(t *testing.T, cfg c02Config) c02Outcome {
 				one(i, d, false)
 			}
 		case "overlap":
+			// two connections open at the same time, each from its own UTransport (its own
+			// socket: with zero-length source connection IDs one socket can only carry one
+			// connection to a peer), both using the SAME spec value
 			one(1, d, true)
 			if out.fail == nil {
-				one(2, d, true)
+				d2, _, _ := w.NewDialer(mkKind())
+				dialers = append(dialers, d2)
+				one(2, d2, true)
 			}
-			if out.fail == nil && conns[0].Context().Err() != nil {
-				fail("first-connection-died-during-second-dial", 1, context.Cause(conns[0].Context()))
+			if out.fail == nil {
+				if err := sim.EchoOnce(ctx, conns[0], 11, 2048, -1); err != nil {
+					fail("first-connection-broken-by-second-dial", 1, err)
+				}
 			}
 		case "newtransport":
 			one(1, d, false)
